@@ -35,7 +35,7 @@ ASSUMPTIONS = ['only commands mutate the collection between do and undo (the sta
                'commands whose do() raises are not generated', 'sampling, not proof']
 PROBES = ['undo_created_group', 'redo_created_group', 'undo_remove_data_with_groups', 'undo_depth_ge_3', 'history_bound_hit',
           'redo_cleared_by_new_command', 'undo_after_restart_empty', 'andnot_or_xor_mode',
-          'edit_choice_changed_between_commands', 'redo_followed_not_compared', 'dataset_with_stand_alone_subset']
+          'edit_choice_changed_between_commands', 'redo_followed_not_compared']
 
 WEIGHTS = {'new_group': 0.5, 'append': 0.5, 'new': 2, 'do_add': 4, 'do_remove': 2, 'do_apply': 6, 'do_roi': 2, 'undo': 6, 'redo': 4,
            'set_edit': 1, 'set_mode': 1, 'restart': 0.3, 'collect': 0.3}
@@ -56,9 +56,9 @@ def generate(rng, cfg, guards):
     if rng.chance(0.15):
         # the first selections are made while the collection is still empty
         ops = [W.gen_common(rng, 'new'), W.gen_common(rng, 'do_apply'), ['undo'], ['do_add', 0]]
-    if rng.chance(0.25):
-        # the first dataset carries a selection of its own (a stand-alone subset, as scripts and some tools make them) before any command
-        ops.insert(1, ['stray', 0, W.gen_recipe(rng, 1)])
+    # (withdrawn: a 'stray' operation gave the first dataset a stand-alone subset before any command. glue no longer supports subsets
+    # outside subset groups - a restored collection coerces them into groups with a warning - and histories with a restart raised alarms
+    # on the unchanged tree under VERIF_SEED 1-3 that are about that coercion, not about undo. The executor still knows the operation.)
     for _ in range(rng.randrange(0, 3)):
         ops.append(W.gen_common(rng, rng.pick(['new_group', 'set_edit', 'set_mode', 'new', 'append'])))
     while len(ops) < n:
